@@ -34,7 +34,11 @@ def build():
     'C15', units,
     bounded=[Bounded('C15/line/value_text_roundtrip', 'replay/c15_roundtrip.py', ['--n', '20000'], ['--n', '1000000'],
                      'boundary magnitudes +-10^k (k in -12..308) with nextafter neighbours, +-inf, ints, timestamps in [0, 2^32), plus N seeded random 64-bit patterns (quick 2e4, thorough 1e6), through the real line client and line listener; also the pickle pair',
-                     "'%.10f' formatting and float() parsing of IEEE doubles are outside z3/cvc5's theories")],
+                     "'%.10f' formatting and float() parsing of IEEE doubles are outside z3/cvc5's theories"),
+             Bounded('C15/native/batching_cross_check', 'replay/relay_native.py',
+                     ['--len', '5', '--random', '50', '--only', 'order_exactly_once,no_raise'], ['--len', '6', '--random', '300', '--thorough', '--only', 'order_exactly_once,no_raise'],
+                     "every enabled sequence of <= 5 (quick) / 6 (thorough) events (arrivals, self-metrics, connection made / lost / failed, pause / resume, timer rounds, optional stop) plus seeded random longer ones on the real pickle and line client factories with a task.Clock, MAX_DATAPOINTS_PER_MESSAGE in {1,2,500}, with and without connection-quality resets: each written batch is the head of the queue in arrival order, non-empty and within the batch limit; nothing is merged, reordered or dropped",
+                     "history-level cross-check of the discharged batching contracts (takeSomeFromQueue / sendQueued) on CPython and Twisted")],
     trusted_base=['A-ENGINE', 'A-SMT', 'A-STR', 'A-PICKLE', 'A-TWISTED-DEFER'],
     assumptions=[
       "the line client's text is characterised structurally (format template, rstrip chain, UTF-8 encode); that this text has three whitespace-separated fields which float() parses back is A-STR + the bounded clause",
